@@ -512,3 +512,289 @@ func cfgReaches(g *cfg.CFG, a, b nodeLoc) bool {
 	}
 	return walk(a.b.Index)
 }
+
+// RESTART-ASSIGNS (C07, C06): an iterator that finds its current node deleted restarts: it calls a
+// positioning helper (`start`) and carries on from there. The helper reports whether it found a
+// position by testing the cursor field afterwards (`return t.node != nil`). That report is true to
+// the container only if the helper assigns the cursor on every path: a helper that assigns it only
+// inside its descent loop leaves the old — deleted — node in place when the container is empty, says
+// "found", and the caller restarts on the same deleted node for ever.
+//
+// Slots (by shape, package search): methods of types that have a Next method which return a
+// comparison of a receiver field F with nil and assign F inside a loop. Obligation: F is also
+// assigned before the loop on every path (so that the zero-iteration path does not report a stale
+// value), or the method returns a value that does not depend on F.
+func init() {
+	register(&Rule{
+		Name:  "RESTART-ASSIGNS",
+		IR:    "cfg",
+		Props: []string{"C07", "C06"},
+		Floor: 1,
+		Doc:   "an iterator's positioning helper that reports `cursor != nil` assigns the cursor on every path, not only inside its descent loop: on an empty container it must not report the stale (deleted) node as a position",
+		Run:   runRestartAssigns,
+	})
+}
+
+func runRestartAssigns(c *Ctx) []Obligation {
+	var out []Obligation
+	p := c.Pkg("search")
+	if p == nil {
+		return out
+	}
+	info := p.TypesInfo
+	hasNext := map[*types.Named]bool{}
+	for _, fd := range c.FuncDecls(p) {
+		if fd.Recv != nil && fd.Name.Name == "Next" {
+			if obj, _ := info.Defs[fd.Name].(*types.Func); obj != nil {
+				if n := namedOf(obj.Type().(*types.Signature).Recv().Type()); n != nil {
+					hasNext[n] = true
+				}
+			}
+		}
+	}
+	for _, fd := range c.FuncDecls(p) {
+		if fd.Recv == nil || len(fd.Recv.List) != 1 || len(fd.Recv.List[0].Names) != 1 {
+			continue
+		}
+		obj, _ := info.Defs[fd.Name].(*types.Func)
+		if obj == nil {
+			continue
+		}
+		rn := namedOf(obj.Type().(*types.Signature).Recv().Type())
+		if rn == nil || !hasNext[rn] {
+			continue
+		}
+		recv := info.Defs[fd.Recv.List[0].Names[0]]
+		fieldOf := func(e ast.Expr) types.Object {
+			sel, ok := ast.Unparen(e).(*ast.SelectorExpr)
+			if !ok {
+				return nil
+			}
+			if id, ok := ast.Unparen(sel.X).(*ast.Ident); ok && info.Uses[id] == recv {
+				if s := info.Selections[sel]; s != nil {
+					return s.Obj()
+				}
+			}
+			return nil
+		}
+		// returns of `F != nil` / `F == nil`
+		var retField types.Object
+		var retStmt *ast.ReturnStmt
+		inspectShallow(fd.Body, func(n ast.Node) bool {
+			r, ok := n.(*ast.ReturnStmt)
+			if !ok || len(r.Results) != 1 {
+				return true
+			}
+			be, ok := ast.Unparen(r.Results[0]).(*ast.BinaryExpr)
+			if !ok || (be.Op != token.NEQ && be.Op != token.EQL) {
+				return true
+			}
+			for _, pr := range [][2]ast.Expr{{be.X, be.Y}, {be.Y, be.X}} {
+				if id, ok := ast.Unparen(pr[1]).(*ast.Ident); ok && id.Name == "nil" {
+					if f := fieldOf(pr[0]); f != nil {
+						retField, retStmt = f, r
+					}
+				}
+			}
+			return true
+		})
+		if retField == nil {
+			continue
+		}
+		// assignments to F: inside loops vs outside
+		var inLoop, outside []*ast.AssignStmt
+		var walk func(n ast.Node, loop bool)
+		walk = func(n ast.Node, loop bool) {
+			ast.Inspect(n, func(m ast.Node) bool {
+				if m == nil || m == n {
+					return true
+				}
+				switch x := m.(type) {
+				case *ast.FuncLit:
+					return false
+				case *ast.ForStmt:
+					walk(x.Body, true)
+					return false
+				case *ast.RangeStmt:
+					walk(x.Body, true)
+					return false
+				case *ast.AssignStmt:
+					for _, l := range x.Lhs {
+						if fieldOf(l) == retField {
+							if loop {
+								inLoop = append(inLoop, x)
+							} else {
+								outside = append(outside, x)
+							}
+						}
+					}
+				}
+				return true
+			})
+		}
+		walk(fd.Body, false)
+		if len(inLoop) == 0 {
+			continue
+		}
+		ob := Obligation{Key: c.FuncName(p, fd), Pos: c.Position(fd.Pos()), Status: OK}
+		// must-pass-through: every path from entry to the return passes an assignment outside a loop body
+		g := newCFG(info, fd.Body)
+		isOutside := func(n ast.Node) bool {
+			for _, a := range outside {
+				if n == ast.Node(a) {
+					return true
+				}
+			}
+			return false
+		}
+		reached := false
+		seen := map[int32]bool{}
+		var visit func(bi int32)
+		visit = func(bi int32) {
+			if seen[bi] || reached {
+				return
+			}
+			seen[bi] = true
+			b := g.Blocks[bi]
+			for _, n := range b.Nodes {
+				if isOutside(n) {
+					return
+				}
+				// skip the in-loop assignments: the path of interest is the one on which the loop body never runs
+				for _, a := range inLoop {
+					if n == ast.Node(a) {
+						return
+					}
+				}
+				if n == ast.Node(retStmt) {
+					reached = true
+					return
+				}
+			}
+			for _, s := range b.Succs {
+				visit(s.Index)
+			}
+		}
+		if len(g.Blocks) > 0 {
+			visit(0)
+		}
+		fname := retField.Name()
+		if reached {
+			ob.Status = Violation
+			ob.Detail = fmt.Sprintf("%s reports `%s` but assigns %s only inside its loop (%s): when the loop body never runs (an empty container) the field keeps its previous value — for an iterator that restarts because its node was deleted, the deleted node — and the helper reports it as a position",
+				fd.Name.Name, strings.TrimSpace(nodeText(c.Fset, retStmt)), fname, c.Position(inLoop[0].Pos()))
+		} else {
+			ob.Detail = fmt.Sprintf("%s assigns %s on every path before it reports `%s`", fd.Name.Name, fname, strings.TrimSpace(nodeText(c.Fset, retStmt)))
+		}
+		out = append(out, ob)
+	}
+	return out
+}
+
+// WIDTH-LADDER (C09): fixed-width integers are stored in the fewest bytes that hold the value. The
+// width is chosen by a ladder of mask tests (`if v&M1 == 0 { return 1 } else if v&M2 == 0 { return 2 } …`)
+// and the value is then written and read back byte by byte for that many bytes. The ladder is right
+// only if the mask tested for width k is exactly "all bits above the low 8k": a mask that is one
+// nibble short lets values with bits just above 8k through, and they are stored truncated.
+//
+// Slots (by shape, package encoding): functions uint64 → int whose body is an if/else-if chain of
+// tests `v&M == 0` returning integer constants. One obligation per rung: M == ^uint64(0) << (8*k) for
+// the constant k it returns, and the value returned after the chain is 8.
+func init() {
+	register(&Rule{
+		Name:  "WIDTH-LADDER",
+		IR:    "ast",
+		Props: []string{"C09"},
+		Floor: 7,
+		Doc:   "in the byte-width ladder of the fixed-width integer codec, the mask tested for width k is exactly the bits above the low 8k bits, for every rung, and the fall-through width is 8",
+		Run:   runWidthLadder,
+	})
+}
+
+func runWidthLadder(c *Ctx) []Obligation {
+	var out []Obligation
+	p := c.Pkg("encoding")
+	if p == nil {
+		return out
+	}
+	info := p.TypesInfo
+	for _, fd := range c.FuncDecls(p) {
+		obj, _ := info.Defs[fd.Name].(*types.Func)
+		if obj == nil || fd.Recv != nil {
+			continue
+		}
+		sig := obj.Type().(*types.Signature)
+		if sig.Params().Len() != 1 || sig.Results().Len() != 1 {
+			continue
+		}
+		if b, ok := sig.Params().At(0).Type().Underlying().(*types.Basic); !ok || b.Kind() != types.Uint64 {
+			continue
+		}
+		param := sig.Params().At(0)
+		if len(fd.Body.List) < 1 {
+			continue
+		}
+		is, ok := fd.Body.List[0].(*ast.IfStmt)
+		if !ok {
+			continue
+		}
+		name := c.FuncName(p, fd)
+		rungs := 0
+		for cur := is; cur != nil; {
+			be, ok := ast.Unparen(cur.Cond).(*ast.BinaryExpr)
+			if !ok || be.Op != token.EQL {
+				break
+			}
+			and, ok := ast.Unparen(be.X).(*ast.BinaryExpr)
+			if !ok || and.Op != token.AND {
+				break
+			}
+			id, ok := ast.Unparen(and.X).(*ast.Ident)
+			if !ok || info.Uses[id] != types.Object(param) {
+				break
+			}
+			mtv := info.Types[and.Y]
+			if mtv.Value == nil || len(cur.Body.List) != 1 {
+				break
+			}
+			ret, ok := cur.Body.List[0].(*ast.ReturnStmt)
+			if !ok || len(ret.Results) != 1 {
+				break
+			}
+			ktv := info.Types[ret.Results[0]]
+			if ktv.Value == nil {
+				break
+			}
+			k, _ := constant.Int64Val(ktv.Value)
+			mask, exact := constant.Uint64Val(constant.ToInt(mtv.Value))
+			rungs++
+			ob := Obligation{Key: fmt.Sprintf("%s#%d", name, k), Pos: c.Position(cur.Pos()), Status: OK}
+			want := ^uint64(0) << uint(8*k)
+			switch {
+			case !exact || k < 1 || k > 7:
+				ob.Status, ob.Detail = Undecided, fmt.Sprintf("rung returning %d: mask or width not understood", k)
+			case mask != want:
+				ob.Status = Violation
+				ob.Detail = fmt.Sprintf("width %d is chosen when v&%#x == 0, but %d bytes hold exactly the values with v&%#x == 0: values with a bit set in %#x are stored in %d bytes and read back truncated", k, mask, k, want, want&^mask|mask&^want, k)
+			default:
+				ob.Detail = fmt.Sprintf("width %d is chosen exactly when v&%#x == 0", k, mask)
+			}
+			out = append(out, ob)
+			next, _ := cur.Else.(*ast.IfStmt)
+			cur = next
+		}
+		if rungs == 0 {
+			continue
+		}
+		// fall-through
+		if last, ok := fd.Body.List[len(fd.Body.List)-1].(*ast.ReturnStmt); ok && len(last.Results) == 1 {
+			if tv := info.Types[last.Results[0]]; tv.Value != nil {
+				if k, _ := constant.Int64Val(tv.Value); k != 8 {
+					out = append(out, Obligation{Key: name + "#fallthrough", Pos: c.Position(last.Pos()), Status: Violation,
+						Detail: fmt.Sprintf("values that pass no rung are given width %d, not 8", k)})
+				}
+			}
+		}
+	}
+	return out
+}
